@@ -747,7 +747,7 @@ func constStr(t *Term) string {
 		v := int64(t.k)
 		if v < 0 {
 			// careful with MinInt64
-			return fmt.Sprintf("(- %d)", -(v + 1) + 1)
+			return fmt.Sprintf("(- %d)", uint64(-(v+1))+1)
 		}
 		return fmt.Sprintf("%d", v)
 	case t.w%4 == 0:
